@@ -262,7 +262,7 @@ theorem C20_reachable (s : Sys) (l : List Step)
       | bsei s1 sender funds tm _ _ hx' h t r d g => rw [h, d]; exact ⟨p1, p2, p3, p4⟩
       | stsei blk sender funds tm _ hx' h b r d g => rw [h, d]; exact ⟨p1, p2, p3, p4⟩
       | reward s1 sender funds rm _ _ _ _ hx' h b t d g => rw [h, d]; exact ⟨p1, p2, p3, p4⟩
-      | disp env sender funds dm _ hx' h b t r g =>
+      | disp env sender funds dm _ _ _ hx' h b t r g =>
         rw [h]
         exact ⟨p1, p2, C17_keeper_rate_le_one.2 _ _ _ _ _ _ _ p3 hx',
           by rw [(C20_dispatcher_fields _ _ _ _ _ _ _ hx').1]; exact p4⟩
